@@ -27,6 +27,10 @@ pub enum Event {
     InfGet,
     InfSet,
     InfDefault,
+    /// a pure scheduling point at an internal layer boundary (KKT update/solve,
+    /// factorisation, cone scaling, residual update): lets a simulated scheduler
+    /// interleave other simulated threads there
+    Yield,
 }
 
 type ClockHook = fn() -> u64;
